@@ -375,7 +375,7 @@ impl RecomputeHeap {
 //@ impl: impl RecomputeHeap
 //@ name: queue_for
 //@ as: fn queue_for(&mut self, height: usize) -> (r: &mut RQueue)
-//@ rule R5: `Ref::map(self.queues.borrow(), |queue| &queue[height])` => `self.queues.get_mut(height).unwrap()` x1
+//@ rule R5 re: `Ref::map\(\s*(?:self\.queues\.borrow\(\)|\(&self\.queues\))\s*,\s*\|queue\|\s*&queue\[height\]\s*\)` => `self.queues.get_mut(height).unwrap()` x1
 //@ props: C19
 //@ contract:
 //@|     requires height < old(self).queues@.len(),
